@@ -18,7 +18,7 @@ encoding of CONNECT, CONNECT `pkt`, answer, time); `(hsP w pkt ack).taken` is th
 answer has been taken out of the reader (`last = ack`, reader empty, keep-alive deadlines cleared).
 
 The hypothesis "CONNECT fits" is `encodeConnect room connectPacket = .ok (off, pkt)`; by
-`C12_connect_fits_iff` it holds iff `5 + |body| ≤ capacity − Σ len(retained)` (finding F5 is exactly
+`C12_connect_fits_iff` it holds iff `5 + |body| ≤ capacity − Σ len(retained)` (finding F9 is exactly
 its failure).
 -/
 namespace Minimq
@@ -238,7 +238,7 @@ theorem C12M_refusal_is_case_1 (cap : Nat) (sp : Bool) (rc : Nat) (block : Bytes
 /-- **Re-connectable.** Whatever directives are executed from a world whose arena is laid out sanely
 — in particular `connect`, any answer, any decisions, any ending above — the arena is still laid out
 sanely (C17); together with "nothing suspended, no decision left over" from the endings, the
-hypotheses of `C12M_connect_succeeds` hold again, except for "CONNECT fits" (finding F5). -/
+hypotheses of `C12M_connect_succeeds` hold again, except for "CONNECT fits" (finding F9). -/
 theorem C12M_reconnectable (w : World) (ds : List Directive)
     (h : w.sess.data.outbound.ArenaInv ∧ w.sess.data.outbound.SerInv) :
     (ds.foldl World.execDirective w).sess.data.outbound.ArenaInv ∧
